@@ -6,11 +6,16 @@ CONSTANTS
   Shapes = {"arr", "sc"}
   BinForms = {"operator", "ufunc", "inplace", "out"}
   BinOpSet = {"add", "subtract", "maximum", "less", "equal"}
-  ConvVias = {"in_units", "convert_to_units", "to_value", "in_base"}
+  ConvVias = {"in_units", "convert_to_units", "to_value", "in_base", "convert_to_base"}
   ChainP = {""}
   ChainTgt = {"K", "degC", "degF"}
-  ChainDT = {"f8", "f4"}
+  ChainDT = {"f8", "f4", "i4"}
   ChainLen3 = FALSE
+  ChainBases = {"degC", "degF", "K", "delta_degF"}
+  ConvDT = {"f8", "f4", "i2", "u2", "i4", "i8"}
+  MixP = {"", "Y", "Z", "E", "P", "T", "G", "M", "k", "h", "da", "d", "c", "m", "u", "n", "p", "f", "a", "z", "y", "micro_sign", "micro_mu"}
+  MixOps = {"add", "subtract", "maximum", "less", "equal"}
+  Fams = {"conv", "bin", "red", "ref", "chain", "mix"}
 INIT Init
 NEXT Next
 INVARIANT Export
